@@ -3,6 +3,8 @@ package fam
 import (
 	"crypto/rand"
 	"encoding/json"
+	"errors"
+	"fmt"
 	"io"
 	mrand "math/rand"
 	"sort"
@@ -68,6 +70,24 @@ func (r *shortReader) Read(p []byte) (int, error) {
 	n, err := r.inner.Read(p)
 	r.stream = append(r.stream, p[:n]...)
 	return n, err
+}
+
+// flakyReader fails every fourth Read: alternately outright and after a partial read.
+type flakyReader struct {
+	inner io.Reader
+	calls int
+}
+
+func (r *flakyReader) Read(p []byte) (int, error) {
+	r.calls++
+	if r.calls%4 == 0 {
+		if r.calls%8 == 0 && len(p) > 7 {
+			n, _ := r.inner.Read(p[:7])
+			return n, errors.New("entropy source failed part-way")
+		}
+		return 0, errors.New("entropy source temporarily unavailable")
+	}
+	return r.inner.Read(p)
 }
 
 func freeBitsKey(b []byte) [16]byte {
@@ -205,6 +225,39 @@ func (IdGen) Extra(tier string, seed int64) []orch.Case {
 			orch.Fatal("idgen: build %s: %v", kind, err)
 		}
 		shortEvs = append(shortEvs, rawEv{kind + "/short-reads", i % nSP, 0, doc.Root().SelectAttrValue("ID", "")})
+	}
+	// third phase: an entropy source that fails now and then. A builder may refuse (error or panic: no
+	// message), but every message it does hand back is an event like any other.
+	flaky := &flakyReader{inner: rec}
+	rand.Reader = flaky
+	refused := 0
+	for i := 0; i < 300; i++ {
+		sp := sps[i%nSP]
+		kind := []string{"authn", "logoutReq", "logoutResp", "logoutReqSigned"}[i%4]
+		doc, err := func() (doc *etree.Document, err error) {
+			defer func() {
+				if r := recover(); r != nil {
+					doc, err = nil, fmt.Errorf("panic: %v", r)
+				}
+			}()
+			switch kind {
+			case "authn":
+				return sp.BuildAuthRequestDocumentNoSig()
+			case "logoutReq":
+				return sp.BuildLogoutRequestDocumentNoSig("alice@example.com", "sess-1")
+			case "logoutReqSigned":
+				return sp.BuildLogoutRequestDocument("alice@example.com", "sess-1")
+			}
+			return sp.BuildLogoutResponseDocumentNoSig(saml2.StatusCodeSuccess, "_req-1")
+		}()
+		if err != nil || doc == nil || doc.Root() == nil {
+			refused++
+			continue
+		}
+		evs = append(evs, rawEv{kind + "/flaky-entropy", i % nSP, 0, doc.Root().SelectAttrValue("ID", "")})
+	}
+	if flaky.calls < 40 || refused == 300 {
+		orch.Fatal("idgen: the flaky entropy source did not behave as intended (%d reads, %d of 300 builds refused)", flaky.calls, refused)
 	}
 	rand.Reader = rec
 	shortDraw := map[string][]byte{}
